@@ -32,13 +32,16 @@ VARIABLES
   idle,     \* idle[n]: n's QUIC idle timeout (ms)
   ka,       \* ka[n]: n's keep-alive interval (0: none)
   runStart, \* line of the most recent reset
-  lastSend  \* lastSend[<<n, g>>]: when n last opened a stream on connection g
+  lastSend, \* lastSend[<<n, g>>]: when n last opened a stream on connection g
+  quietLen, \* quietLen[n]: length of evlog[n] at the last quiescence observation
+  callListed \* callListed[nonce]: was the callee listed when the RPC was issued
 
 tvars == <<l, now, pendEv, conns, tasks, spawnQ, nextTick, phase, subs, subPos, addrNode,
-           lastAdd, replies, closeT, faultT, idle, ka, runStart, lastSend>>
+           lastAdd, replies, closeT, faultT, idle, ka, runStart, lastSend, quietLen, callListed>>
 allvars == <<vars, tvars>>
 
 TraceNoLimit == -1
+Max2(a, b) == IF a > b THEN a ELSE b
 Has(r, f) == f \in DOMAIN r
 Get(r, f, d) == IF Has(r, f) THEN r[f] ELSE d
 Slack == 50    \* ms of scheduling slack granted to timing rules
@@ -69,7 +72,7 @@ TraceInit ==
   /\ pendEv = Empty /\ conns = Empty /\ tasks = Empty /\ spawnQ = Empty
   /\ nextTick = Empty /\ phase = Empty /\ subs = Empty /\ subPos = Empty
   /\ addrNode = Empty /\ lastAdd = Empty /\ replies = Empty /\ closeT = Empty
-  /\ faultT = -1 /\ idle = Empty /\ ka = Empty /\ runStart = 0 /\ lastSend = Empty
+  /\ faultT = -1 /\ idle = Empty /\ ka = Empty /\ runStart = 0 /\ lastSend = Empty /\ quietLen = Empty /\ callListed = Empty
 
 -----------------------------------------------------------------------------
 Cur == Rec[l]
@@ -95,7 +98,7 @@ TrReset ==
   /\ pendEv' = Empty /\ conns' = Empty /\ tasks' = Empty /\ spawnQ' = Empty
   /\ nextTick' = Empty /\ phase' = Empty /\ subs' = Empty /\ subPos' = Empty
   /\ addrNode' = Empty /\ lastAdd' = Empty /\ replies' = Empty /\ closeT' = Empty
-  /\ faultT' = -1 /\ idle' = Empty /\ ka' = Empty /\ runStart' = l /\ lastSend' = Empty
+  /\ faultT' = -1 /\ idle' = Empty /\ ka' = Empty /\ runStart' = l /\ lastSend' = Empty /\ quietLen' = Empty /\ callListed' = Empty
 
 TrNodeStart ==
   /\ IsEvent("obs.node_start")
@@ -105,7 +108,7 @@ TrNodeStart ==
   /\ addrNode' = With(addrNode, Cur.addr, N)
   /\ idle' = With(idle, N, Get(Cur, "idle_ms", 10000))
   /\ ka' = With(ka, N, Get(Cur, "keepalive_ms", 0))
-  /\ UNCHANGED <<runStart, lastSend>>
+  /\ UNCHANGED <<runStart, lastSend, quietLen, callListed>>
   /\ cfg' = With(cfg, N, [limit |-> NoLimit, interval |-> 0, step |-> 0, maxb |-> 0, cto |-> 0, cap |-> 0])
   /\ nextTick' = With(nextTick, N, 0)
   /\ UNCHANGED <<conns, tasks, subs, closeT, faultT>>
@@ -115,7 +118,7 @@ TrAddr ==
   /\ IsEvent("obs.addr")
   /\ addrNode' = With(addrNode, Cur.addr, Cur.who)
   /\ UNCHANGED <<vars, pendEv, conns, tasks, spawnQ, nextTick, phase, subs, subPos, lastAdd,
-                 replies, closeT, faultT, idle, ka, runStart, lastSend>>
+                 replies, closeT, faultT, idle, ka, runStart, lastSend, quietLen, callListed>>
 
 TrMgrStart ==
   /\ IsEvent("mgr.start")
@@ -130,27 +133,27 @@ TrMgrStart ==
   /\ nextTick' = [nextTick EXCEPT ![N] = Cur.t]
   /\ UNCHANGED <<connVars, known, pendingDial, bgResult, backoff, pendingConn,
                  pendEv, conns, tasks, spawnQ, subs, subPos, addrNode, lastAdd, replies,
-                 closeT, faultT, idle, ka, runStart, lastSend>>
+                 closeT, faultT, idle, ka, runStart, lastSend, quietLen, callListed>>
 
 TrKnownInsert ==
   /\ IsEvent("obs.known_insert")
   /\ known' = [known EXCEPT ![N] = With(@, Cur.peer, [aff |-> Cur.affinity, addrs |-> Cur.addrs])]
   /\ UNCHANGED <<connVars, cfg, pendingDial, bgResult, backoff, pendingConn, pendEv, conns, tasks,
                  spawnQ, nextTick, phase, subs, subPos, addrNode, lastAdd, replies, closeT,
-                 faultT, idle, ka, runStart, lastSend>>
+                 faultT, idle, ka, runStart, lastSend, quietLen, callListed>>
 
 TrKnownRemove ==
   /\ IsEvent("obs.known_remove")
   /\ known' = [known EXCEPT ![N] = Without(@, Cur.peer)]
   /\ UNCHANGED <<connVars, cfg, pendingDial, bgResult, backoff, pendingConn, pendEv, conns, tasks,
                  spawnQ, nextTick, phase, subs, subPos, addrNode, lastAdd, replies, closeT,
-                 faultT, idle, ka, runStart, lastSend>>
+                 faultT, idle, ka, runStart, lastSend, quietLen, callListed>>
 
 TrFault ==
   /\ IsEvent("obs.fault")
   /\ faultT' = Cur.t
   /\ UNCHANGED <<vars, pendEv, conns, tasks, spawnQ, nextTick, phase, subs, subPos, addrNode,
-                 lastAdd, replies, closeT, idle, ka, runStart, lastSend>>
+                 lastAdd, replies, closeT, idle, ka, runStart, lastSend, quietLen, callListed>>
 
 -----------------------------------------------------------------------------
 (* The connectivity check *)
@@ -187,7 +190,7 @@ TrTick ==
                      @ \o [i \in DOMAIN Cur.dials |->
                              [bg |-> TRUE, peer |-> Cur.dials[i].peer, addr |-> Cur.dials[i].addr]]]
   /\ UNCHANGED <<connVars, pendEv, conns, tasks, phase, subs, subPos, addrNode, lastAdd, replies,
-                 closeT, faultT, idle, ka, runStart, lastSend>>
+                 closeT, faultT, idle, ka, runStart, lastSend, quietLen, callListed>>
 
 TrConnectReq ==
   /\ IsEvent("mgr.connect_req")
@@ -196,7 +199,7 @@ TrConnectReq ==
   /\ spawnQ' = [spawnQ EXCEPT ![N] =
                   Append(@, [bg |-> FALSE, peer |-> Get(Cur, "expected", -1), addr |-> Cur.addr])]
   /\ UNCHANGED <<connVars, known, cfg, pendingDial, bgResult, backoff, pendEv, conns, tasks,
-                 nextTick, phase, subs, subPos, addrNode, lastAdd, replies, closeT, faultT, idle, ka, runStart, lastSend>>
+                 nextTick, phase, subs, subPos, addrNode, lastAdd, replies, closeT, faultT, idle, ka, runStart, lastSend, quietLen, callListed>>
 
 -----------------------------------------------------------------------------
 (* Outbound: dial_peer_task *)
@@ -212,7 +215,7 @@ TrDialStart ==
                        addr |-> Cur.addr, gid |-> 0, fin |-> "no"])
   /\ spawnQ' = [spawnQ EXCEPT ![N] = Tail(@)]
   /\ UNCHANGED <<vars, pendEv, conns, nextTick, phase, subs, subPos, addrNode, lastAdd, replies,
-                 closeT, faultT, idle, ka, runStart, lastSend>>
+                 closeT, faultT, idle, ka, runStart, lastSend, quietLen, callListed>>
 
 (* TLS finished on the dialer: it accepted the certificate of the party at  *)
 (* the address.  PinSound / Authentic: the identity it attributes is the    *)
@@ -230,7 +233,7 @@ TrDialTls ==
                     ackSent |-> FALSE, ackRead |-> FALSE, ackConf |-> FALSE])
   /\ tasks' = [tasks EXCEPT ![Cur.task].gid = Cur.gid]
   /\ UNCHANGED <<vars, pendEv, spawnQ, nextTick, phase, subs, subPos, addrNode, lastAdd, replies,
-                 closeT, faultT, idle, ka, runStart, lastSend>>
+                 closeT, faultT, idle, ka, runStart, lastSend, quietLen, callListed>>
 
 TrDialDone ==
   /\ IsEvent("dial.done")
@@ -249,7 +252,7 @@ TrDialDone ==
                   /\ Closes(N, {tk.gid})
              ELSE UNCHANGED <<closedL, closeT>>
   /\ UNCHANGED <<active, evlog, handlers, dialVars, pendEv, conns, spawnQ, nextTick, phase, subs,
-                 subPos, addrNode, lastAdd, replies, faultT, idle, ka, runStart, lastSend>>
+                 subPos, addrNode, lastAdd, replies, faultT, idle, ka, runStart, lastSend, quietLen, callListed>>
 
 -----------------------------------------------------------------------------
 (* Inbound: handle_incoming / handle_incoming_task *)
@@ -261,7 +264,7 @@ TrInAccepted ==
   /\ pendingConn' = [pendingConn EXCEPT ![N] = @ + 1]
   /\ UNCHANGED <<connVars, known, cfg, pendingDial, bgResult, backoff, pendEv, conns, tasks,
                  spawnQ, nextTick, phase, subs, subPos, addrNode, lastAdd, replies, closeT,
-                 faultT, idle, ka, runStart, lastSend>>
+                 faultT, idle, ka, runStart, lastSend, quietLen, callListed>>
 
 TrInStart ==
   /\ IsEvent("in.start")
@@ -270,7 +273,7 @@ TrInStart ==
                    [node |-> N, kind |-> "in", bg |-> FALSE, target |-> -1, addr |-> "-",
                     gid |-> 0, fin |-> "no"])
   /\ UNCHANGED <<vars, pendEv, conns, spawnQ, nextTick, phase, subs, subPos, addrNode, lastAdd,
-                 replies, closeT, faultT, idle, ka, runStart, lastSend>>
+                 replies, closeT, faultT, idle, ka, runStart, lastSend, quietLen, callListed>>
 
 (* TLS finished on the listener.  In TLS 1.3 the client finishes first, so  *)
 (* the connection is already known from its dialer; the identity the        *)
@@ -285,7 +288,7 @@ TrInTls ==
   /\ conns' = [conns EXCEPT ![Cur.gid].ltls = TRUE]
   /\ tasks' = [tasks EXCEPT ![Cur.task].gid = Cur.gid]
   /\ UNCHANGED <<vars, pendEv, spawnQ, nextTick, phase, subs, subPos, addrNode, lastAdd, replies,
-                 closeT, faultT, idle, ka, runStart, lastSend>>
+                 closeT, faultT, idle, ka, runStart, lastSend, quietLen, callListed>>
 
 TrAdmission ==
   /\ IsEvent("in.admission")
@@ -302,28 +305,28 @@ TrAdmission ==
           /\ Closes(N, {Cur.gid})
      ELSE UNCHANGED <<closedL, closeT>>
   /\ UNCHANGED <<active, evlog, handlers, dialVars, pendEv, tasks, spawnQ, nextTick, phase, subs,
-                 subPos, addrNode, lastAdd, replies, faultT, idle, ka, runStart, lastSend>>
+                 subPos, addrNode, lastAdd, replies, faultT, idle, ka, runStart, lastSend, quietLen, callListed>>
 
 TrAckSent ==
   /\ IsEvent("hs.ack_sent")
   /\ conns[Cur.gid].l = N /\ conns[Cur.gid].admit = "admit" /\ ~conns[Cur.gid].ackSent
   /\ conns' = [conns EXCEPT ![Cur.gid].ackSent = TRUE]
   /\ UNCHANGED <<vars, pendEv, tasks, spawnQ, nextTick, phase, subs, subPos, addrNode, lastAdd,
-                 replies, closeT, faultT, idle, ka, runStart, lastSend>>
+                 replies, closeT, faultT, idle, ka, runStart, lastSend, quietLen, callListed>>
 
 TrAckRead ==
   /\ IsEvent("hs.ack_read")
   /\ conns[Cur.gid].d = N /\ conns[Cur.gid].ackSent /\ ~conns[Cur.gid].ackRead
   /\ conns' = [conns EXCEPT ![Cur.gid].ackRead = TRUE]
   /\ UNCHANGED <<vars, pendEv, tasks, spawnQ, nextTick, phase, subs, subPos, addrNode, lastAdd,
-                 replies, closeT, faultT, idle, ka, runStart, lastSend>>
+                 replies, closeT, faultT, idle, ka, runStart, lastSend, quietLen, callListed>>
 
 TrAckConfirmed ==
   /\ IsEvent("hs.ack_confirmed")
   /\ conns[Cur.gid].l = N /\ conns[Cur.gid].ackSent /\ ~conns[Cur.gid].ackConf
   /\ conns' = [conns EXCEPT ![Cur.gid].ackConf = TRUE]
   /\ UNCHANGED <<vars, pendEv, tasks, spawnQ, nextTick, phase, subs, subPos, addrNode, lastAdd,
-                 replies, closeT, faultT, idle, ka, runStart, lastSend>>
+                 replies, closeT, faultT, idle, ka, runStart, lastSend, quietLen, callListed>>
 
 TrInDone ==
   /\ IsEvent("in.done")
@@ -341,7 +344,7 @@ TrInDone ==
                   /\ Closes(N, {tk.gid})
              ELSE UNCHANGED <<closedL, closeT>>
   /\ UNCHANGED <<active, evlog, handlers, dialVars, pendEv, conns, spawnQ, nextTick, phase, subs,
-                 subPos, addrNode, lastAdd, replies, faultT, idle, ka, runStart, lastSend>>
+                 subPos, addrNode, lastAdd, replies, faultT, idle, ka, runStart, lastSend, quietLen, callListed>>
 
 -----------------------------------------------------------------------------
 (* The active set: every operation logs while holding the write lock *)
@@ -352,7 +355,7 @@ TrApEvent ==
   /\ IsEvent("ap.event")
   /\ pendEv' = [pendEv EXCEPT ![N] = Append(@, EvOf(Cur))]
   /\ UNCHANGED <<vars, conns, tasks, spawnQ, nextTick, phase, subs, subPos, addrNode, lastAdd,
-                 replies, closeT, faultT, idle, ka, runStart, lastSend>>
+                 replies, closeT, faultT, idle, ka, runStart, lastSend, quietLen, callListed>>
 
 (* add_peer: only for a connecting task of this node that finished Ok       *)
 TrApAdd ==
@@ -371,7 +374,7 @@ TrApAdd ==
   /\ pendEv' = [pendEv EXCEPT ![N] = <<>>]
   /\ lastAdd' = [lastAdd EXCEPT ![N] = [gid |-> Cur.gid, outcome |-> Cur.outcome]]
   /\ UNCHANGED <<dialVars, conns, tasks, spawnQ, nextTick, phase, subs, subPos, addrNode, replies,
-                 faultT, idle, ka, runStart, lastSend>>
+                 faultT, idle, ka, runStart, lastSend, quietLen, callListed>>
 
 (* handle_connecting_result, after add_peer and before the reply            *)
 TrMgrResult ==
@@ -394,7 +397,7 @@ TrMgrResult ==
   /\ pendingConn' = [pendingConn EXCEPT ![N] = @ - 1]
   /\ lastAdd' = [lastAdd EXCEPT ![N] = [gid |-> 0, outcome |-> "-"]]
   /\ UNCHANGED <<connVars, known, cfg, pendingDial, backoff, pendEv, conns, spawnQ, nextTick,
-                 phase, subs, subPos, addrNode, closeT, faultT, idle, ka, runStart, lastSend>>
+                 phase, subs, subPos, addrNode, closeT, faultT, idle, ka, runStart, lastSend, quietLen, callListed>>
 
 TrApRemove ==
   /\ IsEvent("ap.remove")
@@ -407,7 +410,7 @@ TrApRemove ==
   /\ Cur.len = Cardinality(DOMAIN active'[N])
   /\ pendEv' = [pendEv EXCEPT ![N] = <<>>]
   /\ UNCHANGED <<dialVars, conns, tasks, spawnQ, nextTick, phase, subs, subPos, addrNode, lastAdd,
-                 replies, faultT, idle, ka, runStart, lastSend>>
+                 replies, faultT, idle, ka, runStart, lastSend, quietLen, callListed>>
 
 (* The handler of connection hgid ends.  Why it may end (the environment    *)
 (* must have been able to cause it) is checked on the preceding h.closing.  *)
@@ -424,13 +427,13 @@ TrApRemoveId ==
   /\ Cur.len = Cardinality(DOMAIN active'[N])
   /\ pendEv' = [pendEv EXCEPT ![N] = <<>>]
   /\ UNCHANGED <<dialVars, conns, tasks, spawnQ, nextTick, phase, subs, subPos, addrNode, lastAdd,
-                 replies, faultT, idle, ka, runStart, lastSend>>
+                 replies, faultT, idle, ka, runStart, lastSend, quietLen, callListed>>
 
 TrHStart ==
   /\ IsEvent("h.start")
   /\ Cur.gid \in handlers[N]
   /\ UNCHANGED <<vars, pendEv, conns, tasks, spawnQ, nextTick, phase, subs, subPos, addrNode,
-                 lastAdd, replies, closeT, faultT, idle, ka, runStart, lastSend>>
+                 lastAdd, replies, closeT, faultT, idle, ka, runStart, lastSend, quietLen, callListed>>
 
 (* the handler saw its connection end: who can have caused that?            *)
 PeerGone(n, g) ==
@@ -463,7 +466,7 @@ TrHClosing ==
             Faulty(N) \/ PeerGone(N, Cur.gid) \/ QuietExpiry(N, Cur.gid)
        [] OTHER -> Other(N, Cur.gid) \notin DOMAIN phase    \* TransportError etc.: adversary only
   /\ UNCHANGED <<vars, pendEv, conns, tasks, spawnQ, nextTick, phase, subs, subPos, addrNode,
-                 lastAdd, replies, closeT, faultT, idle, ka, runStart, lastSend>>
+                 lastAdd, replies, closeT, faultT, idle, ka, runStart, lastSend, quietLen, callListed>>
 
 -----------------------------------------------------------------------------
 (* Subscriptions and listings as the application sees them *)
@@ -474,14 +477,14 @@ TrApSubscribe ==
   /\ Len(Cur.snapshot) = Cardinality(DOMAIN active[N])      \* no duplicates
   /\ subPos' = [subPos EXCEPT ![N] = Len(evlog[N])]
   /\ UNCHANGED <<vars, pendEv, conns, tasks, spawnQ, nextTick, phase, subs, addrNode, lastAdd,
-                 replies, closeT, faultT, idle, ka, runStart, lastSend>>
+                 replies, closeT, faultT, idle, ka, runStart, lastSend, quietLen, callListed>>
 
 TrObsSubscribe ==
   /\ IsEvent("obs.subscribe")
   /\ SeqToSet(Cur.snapshot) = DOMAIN active[N]
   /\ subs' = With(subs, Cur.sub, [node |-> N, pos |-> subPos[N]])
   /\ UNCHANGED <<vars, pendEv, conns, tasks, spawnQ, nextTick, phase, subPos, addrNode, lastAdd,
-                 replies, closeT, faultT, idle, ka, runStart, lastSend>>
+                 replies, closeT, faultT, idle, ka, runStart, lastSend, quietLen, callListed>>
 
 (* a subscriber receives exactly the log, in order, from its position       *)
 TrObsEvent ==
@@ -491,7 +494,7 @@ TrObsEvent ==
   /\ evlog[N][subs[Cur.sub].pos + 1] = EvOf(Cur)
   /\ subs' = [subs EXCEPT ![Cur.sub].pos = @ + 1]
   /\ UNCHANGED <<vars, pendEv, conns, tasks, spawnQ, nextTick, phase, subPos, addrNode, lastAdd,
-                 replies, closeT, faultT, idle, ka, runStart, lastSend>>
+                 replies, closeT, faultT, idle, ka, runStart, lastSend, quietLen, callListed>>
 
 (* end of stream: only after shutdown, and nothing was withheld             *)
 TrSubClosed ==
@@ -501,14 +504,14 @@ TrSubClosed ==
   /\ subs[Cur.sub].pos = Len(evlog[N])
   /\ subs' = Without(subs, Cur.sub)
   /\ UNCHANGED <<vars, pendEv, conns, tasks, spawnQ, nextTick, phase, subPos, addrNode, lastAdd,
-                 replies, closeT, faultT, idle, ka, runStart, lastSend>>
+                 replies, closeT, faultT, idle, ka, runStart, lastSend, quietLen, callListed>>
 
 TrObsPeers ==
   /\ IsEvent("obs.peers")
   /\ SeqToSet(Cur.peers) = (IF phase[N] = "done" THEN {} ELSE DOMAIN active[N])
   /\ Len(Cur.peers) = Cardinality(SeqToSet(Cur.peers))
   /\ UNCHANGED <<vars, pendEv, conns, tasks, spawnQ, nextTick, phase, subs, subPos, addrNode,
-                 lastAdd, replies, closeT, faultT, idle, ka, runStart, lastSend>>
+                 lastAdd, replies, closeT, faultT, idle, ka, runStart, lastSend, quietLen, callListed>>
 
 (* the result an application got from connect(): one of the replies sent    *)
 TrConnectResult ==
@@ -519,21 +522,21 @@ TrConnectResult ==
         /\ replies' = [replies EXCEPT ![N] = RemoveAt(@, i)]
   /\ Cur.ok /\ Has(Cur, "expected") => Cur.peer = Cur.expected
   /\ UNCHANGED <<vars, pendEv, conns, tasks, spawnQ, nextTick, phase, subs, subPos, addrNode,
-                 lastAdd, closeT, faultT, idle, ka, runStart, lastSend>>
+                 lastAdd, closeT, faultT, idle, ka, runStart, lastSend, quietLen, callListed>>
 
 (* connect() on a network that is shut down fails without reaching the manager *)
 TrConnectRefused ==
   /\ IsEvent("obs.connect_refused")
   /\ phase[N] \in {"closing", "done"}
   /\ UNCHANGED <<vars, pendEv, conns, tasks, spawnQ, nextTick, phase, subs, subPos, addrNode,
-                 lastAdd, replies, closeT, faultT, idle, ka, runStart, lastSend>>
+                 lastAdd, replies, closeT, faultT, idle, ka, runStart, lastSend, quietLen, callListed>>
 
 (* a connect() whose dial task was aborted by shutdown: the caller gets an error *)
 TrConnectAborted ==
   /\ IsEvent("obs.connect_aborted")
   /\ phase[N] \in {"closing", "done"}
   /\ UNCHANGED <<vars, pendEv, conns, tasks, spawnQ, nextTick, phase, subs, subPos, addrNode,
-                 lastAdd, replies, closeT, faultT, idle, ka, runStart, lastSend>>
+                 lastAdd, replies, closeT, faultT, idle, ka, runStart, lastSend, quietLen, callListed>>
 
 -----------------------------------------------------------------------------
 (* Shutdown *)
@@ -545,7 +548,7 @@ TrShutBegin ==
   /\ phase[N] = "running"
   /\ phase' = [phase EXCEPT ![N] = "closing"]
   /\ UNCHANGED <<vars, pendEv, conns, tasks, spawnQ, nextTick, subs, subPos, addrNode, lastAdd,
-                 replies, closeT, faultT, idle, ka, runStart, lastSend>>
+                 replies, closeT, faultT, idle, ka, runStart, lastSend, quietLen, callListed>>
 
 (* endpoint.close(): every connection of this endpoint is closed            *)
 TrShutClosed ==
@@ -555,7 +558,7 @@ TrShutClosed ==
   /\ closedL' = [closedL EXCEPT ![N] = @ \cup ConnsOf(N)]
   /\ Closes(N, ConnsOf(N))
   /\ UNCHANGED <<active, evlog, handlers, dialVars, pendEv, conns, tasks, spawnQ, nextTick, phase,
-                 subs, subPos, addrNode, lastAdd, replies, faultT, idle, ka, runStart, lastSend>>
+                 subs, subPos, addrNode, lastAdd, replies, faultT, idle, ka, runStart, lastSend, quietLen, callListed>>
 
 (* pending connecting tasks are aborted: their results are never consumed   *)
 TrShutAborted ==
@@ -564,7 +567,7 @@ TrShutAborted ==
   /\ pendingConn' = [pendingConn EXCEPT ![N] = 0]
   /\ UNCHANGED <<connVars, known, cfg, pendingDial, bgResult, backoff, pendEv, conns, tasks,
                  spawnQ, nextTick, phase, subs, subPos, addrNode, lastAdd, replies, closeT,
-                 faultT, idle, ka, runStart, lastSend>>
+                 faultT, idle, ka, runStart, lastSend, quietLen, callListed>>
 
 (* all handlers joined: the active set must be empty (the code asserts it)  *)
 TrShutJoined ==
@@ -574,14 +577,14 @@ TrShutJoined ==
   /\ Cur.active_len = 0
   /\ DOMAIN active[N] = {}
   /\ UNCHANGED <<vars, pendEv, conns, tasks, spawnQ, nextTick, phase, subs, subPos, addrNode,
-                 lastAdd, replies, closeT, faultT, idle, ka, runStart, lastSend>>
+                 lastAdd, replies, closeT, faultT, idle, ka, runStart, lastSend, quietLen, callListed>>
 
 TrShutDone ==
   /\ IsEvent("shut.done")
   /\ phase[N] = "closing"
   /\ phase' = [phase EXCEPT ![N] = "done"]
   /\ UNCHANGED <<vars, pendEv, conns, tasks, spawnQ, nextTick, subs, subPos, addrNode, lastAdd,
-                 replies, closeT, faultT, idle, ka, runStart, lastSend>>
+                 replies, closeT, faultT, idle, ka, runStart, lastSend, quietLen, callListed>>
 
 -----------------------------------------------------------------------------
 (* Quiescence: connectivity has been fault-free for longer than the idle    *)
@@ -599,28 +602,67 @@ TrQuiesce ==
   /\ Mutual
   /\ \A n \in DOMAIN phase : phase[n] = "running" =>
         \A p \in DOMAIN active[n] : p \in DOMAIN phase => phase[p] = "running"
+  /\ quietLen' = [n \in DOMAIN evlog |-> Len(evlog[n])]
   /\ UNCHANGED <<vars, pendEv, conns, tasks, spawnQ, nextTick, phase, subs, subPos, addrNode,
-                 lastAdd, replies, closeT, faultT, idle, ka, runStart, lastSend>>
+                 lastAdd, replies, closeT, faultT, idle, ka, runStart, lastSend, callListed>>
+
+(* C05 Converge: after a mutual dial both sides hold the same connection,   *)
+(* the one dialed by the greater identity                                   *)
+TrConverged ==
+  /\ IsEvent("obs.converged")
+  /\ LET a == Cur.a  b == Cur.b  hi == Max2(a, b) IN
+     /\ b \in DOMAIN active[a] /\ a \in DOMAIN active[b]
+     /\ active[a][b].gid = active[b][a].gid
+     /\ conns[active[a][b].gid].d = hi
+  /\ UNCHANGED <<vars, pendEv, conns, tasks, spawnQ, nextTick, phase, subs, subPos, addrNode,
+                 lastAdd, replies, closeT, faultT, idle, ka, runStart, lastSend, quietLen, callListed>>
+
+(* C05 Settled: no further connect / disconnect events since quiescence     *)
+TrSettled ==
+  /\ IsEvent("obs.settled")
+  /\ \A n \in DOMAIN quietLen : Len(evlog[n]) = quietLen[n]
+  /\ UNCHANGED <<vars, pendEv, conns, tasks, spawnQ, nextTick, phase, subs, subPos, addrNode,
+                 lastAdd, replies, closeT, faultT, idle, ka, runStart, lastSend, quietLen, callListed>>
 
 -----------------------------------------------------------------------------
 (* Events of other layers (RPC path, timeouts, raw observations) do not    *)
 (* change connection state.                                                *)
+(* C09: an RPC reaches a peer only through a registered connection: it is   *)
+(* refused while the peer is not listed (after a disconnect, until a new    *)
+(* connection is established), and at quiescence every listed peer answers  *)
+TrRpcCall ==
+  /\ IsEvent("obs.rpc_call")
+  /\ callListed' = With(callListed, Cur.nonce,
+                         [listed |-> phase[N] # "done" /\ Cur.to \in DOMAIN active[N], to |-> Cur.to])
+  /\ UNCHANGED <<vars, pendEv, conns, tasks, spawnQ, nextTick, phase, subs, subPos, addrNode,
+                 lastAdd, replies, closeT, faultT, idle, ka, runStart, lastSend, quietLen>>
+
+TrRpcResult ==
+  /\ IsEvent("obs.rpc_result")
+  /\ Cur.nonce \in DOMAIN callListed
+  /\ Cur.ok => callListed[Cur.nonce].listed
+  /\ (Cur.ok /\ Has(Cur, "peer_seen")) => Cur.peer_seen = callListed[Cur.nonce].to
+  /\ Get(Cur, "must_succeed", FALSE) => Cur.ok
+  /\ callListed' = Without(callListed, Cur.nonce)
+  /\ UNCHANGED <<vars, pendEv, conns, tasks, spawnQ, nextTick, phase, subs, subPos, addrNode,
+                 lastAdd, replies, closeT, faultT, idle, ka, runStart, lastSend, quietLen>>
+
 TrRpcOpen ==
   /\ IsEvent("rpc.open")
   /\ lastSend' = With(lastSend, <<N, Cur.gid>>, Cur.t)
   /\ UNCHANGED <<vars, pendEv, conns, tasks, spawnQ, nextTick, phase, subs, subPos, addrNode,
-                 lastAdd, replies, closeT, faultT, idle, ka, runStart>>
+                 lastAdd, replies, closeT, faultT, idle, ka, runStart, quietLen, callListed>>
 
 Ignored == {"conn.new", "tmo.set", "tmo.fire", "rpc.finish", "rpc.recv", "rpc.drop",
             "srv.accept", "srv.decoded", "srv.ret", "srv.end", "srv.drop", "srv.err",
-            "app.start", "app.end", "app.drop", "obs.rpc_call", "obs.rpc_result",
+            "app.start", "app.end", "app.drop",
             "obs.connect_call", "obs.disconnect", "h.exit", "shut.idle", "shut.rebound",
             "obs.note", "obs.sub_lagged"}
 
 TrIgnored ==
   /\ l <= Len(Rec) /\ Cur.ev \in Ignored /\ l' = l + 1 /\ now' = Cur.t
   /\ UNCHANGED <<vars, pendEv, conns, tasks, spawnQ, nextTick, phase, subs, subPos, addrNode,
-                 lastAdd, replies, closeT, faultT, idle, ka, runStart, lastSend>>
+                 lastAdd, replies, closeT, faultT, idle, ka, runStart, lastSend, quietLen, callListed>>
 
 TraceNext ==
   \/ TrReset \/ TrNodeStart \/ TrAddr \/ TrMgrStart \/ TrKnownInsert \/ TrKnownRemove \/ TrFault
@@ -632,7 +674,7 @@ TraceNext ==
   \/ TrApSubscribe \/ TrObsSubscribe \/ TrObsEvent \/ TrSubClosed \/ TrObsPeers
   \/ TrConnectResult \/ TrConnectRefused \/ TrConnectAborted
   \/ TrShutBegin \/ TrShutClosed \/ TrShutAborted \/ TrShutJoined \/ TrShutDone
-  \/ TrQuiesce \/ TrRpcOpen \/ TrIgnored
+  \/ TrQuiesce \/ TrConverged \/ TrSettled \/ TrRpcCall \/ TrRpcResult \/ TrRpcOpen \/ TrIgnored
 
 TraceSpec == TraceInit /\ [][TraceNext]_allvars
 
@@ -647,7 +689,6 @@ TraceSpec == TraceInit /\ [][TraceNext]_allvars
 (* pings or a new RPC on the connection - detects the loss up to one send   *)
 (* later.                                                                   *)
 LastSend(n, g) == IF <<n, g>> \in DOMAIN lastSend THEN lastSend[<<n, g>>] ELSE 0
-Max2(a, b) == IF a > b THEN a ELSE b
 
 Late ==
   {<<n, g>> \in {<<m, h>> \in (DOMAIN handlers) \X (DOMAIN conns) : h \in handlers[m]} :
